@@ -426,6 +426,7 @@ type FuncContract struct {
 	DataInv    []Clause // representation invariant: assumed at entry and after every abstracted call, proved at exit
 	Inducts    []*SpecFunc // induct name(vars..., n): P  -- proved by induction on n from 0, then assumed
 	RecSpecs   []*SpecFunc // function-local recursive spec functions over the entry state
+	StateRecs  []*SpecFunc // recursive spec functions of one index evaluated over the memory of the state they are used in
 	MakeBound  *Clause  // every make() in the body allocates at most this many elements
 	Excuses    []Clause // known-finding excuses keyed by obligation label
 	File       string
@@ -433,6 +434,7 @@ type FuncContract struct {
 }
 
 type SpecFunc struct {
+	Like map[string]*Expr // staterec: parameters typed like an expression
 	Name   string
 	Params []string
 	Body   *Expr
@@ -484,7 +486,7 @@ type ContractFile struct {
 }
 
 var clauseKW = map[string]bool{"immutable": true, "mapval": true, "global": true, "func": true, "spec": true, "uf": true, "lemma": true, "axiom": true,
-	"props": true, "requires": true, "ensures": true, "panics": true, "modifies": true, "loop": true,
+	"staterec": true, "props": true, "requires": true, "ensures": true, "panics": true, "modifies": true, "loop": true,
 	"inline": true, "assumed": true, "pure": true, "nooverflow": true, "maypanic": true, "nopaniccheck": true, "nonilcheck": true, "nolocks": true, "strictpanics": true, "splitreturns": true, "deadreturn": true,
 	"split": true, "excuse": true, "makebound": true, "recspec": true, "induct": true, "datainv": true}
 
@@ -640,7 +642,7 @@ func parseContractFile(path, pkg string) (*ContractFile, error) {
 				return nil, fmt.Errorf("%s: clause %q outside func", pos, kw)
 			}
 			switch kw {
-			case "recspec":
+			case "recspec", "staterec":
 				m := regexp.MustCompile(`^([A-Za-z_][A-Za-z0-9_]*)\s*\(([^)]*)\)\s*=\s*(.*)$`).FindStringSubmatch(rest)
 				if m == nil {
 					return nil, fmt.Errorf("%s: bad recspec declaration", pos)
@@ -655,7 +657,30 @@ func parseContractFile(path, pkg string) (*ContractFile, error) {
 				if err != nil {
 					return nil, err
 				}
-				cur.RecSpecs = append(cur.RecSpecs, &SpecFunc{Name: m[1], Params: params, Body: e, Pos: pos})
+				if kw == "staterec" {
+					// parameters: `name` (integer) or `name ~ expr` (a value of the type of expr,
+					// e.g. a slice); the last one is the integer index the recursion runs over
+					sf := &SpecFunc{Name: m[1], Body: e, Pos: pos, Like: map[string]*Expr{}}
+					for _, p := range params {
+						if k := strings.Index(p, "~"); k > 0 {
+							nm := strings.TrimSpace(p[:k])
+							te, err := parseExpr(strings.TrimSpace(p[k+1:]), pos)
+							if err != nil {
+								return nil, err
+							}
+							sf.Params = append(sf.Params, nm)
+							sf.Like[nm] = te
+						} else {
+							sf.Params = append(sf.Params, p)
+						}
+					}
+					if len(sf.Params) < 1 || sf.Like[sf.Params[len(sf.Params)-1]] != nil {
+						return nil, fmt.Errorf("%s: the last parameter of a staterec is its integer index", pos)
+					}
+					cur.StateRecs = append(cur.StateRecs, sf)
+				} else {
+					cur.RecSpecs = append(cur.RecSpecs, &SpecFunc{Name: m[1], Params: params, Body: e, Pos: pos})
+				}
 			case "induct":
 				m := regexp.MustCompile(`^([A-Za-z_][A-Za-z0-9_]*)\s*\(([^)]*)\)\s*:\s*(.*)$`).FindStringSubmatch(rest)
 				if m == nil {
